@@ -85,6 +85,7 @@ class Beliefs:
             names |= set(f.param_names())
             f = f.parent
         self.names = names
+        self.attrs: Set[str] = {n.attr for n in ast.walk(fi.node) if isinstance(n, ast.Attribute)}
         self.axis: Dict[str, str] = {}
         params = set(fi.param_names())
         paired_xy = {"x", "y"} <= params or self._bound_together("x", "y")
@@ -127,6 +128,17 @@ class Beliefs:
     def of(self, name: str) -> Optional[str]:
         return self.axis.get(name)
 
+    def of_attr(self, attr: str) -> Optional[str]:
+        """self._xbin / self._ybin style fields: belief only when the twin field is used too."""
+        tw = _swap_letter(attr)
+        if tw is None or tw not in self.attrs or len(attr) > 10:
+            return None
+        if RX_X.match(attr) and not RX_Y.match(attr):
+            return X
+        if RX_Y.match(attr) and not RX_X.match(attr):
+            return Y
+        return None
+
 
 class AxisTyper:
     PASS_CALLS = {"abs", "int", "float", "round", "floor", "ceil", "maybe_int", "maybe_zero", "align_up", "align_down", "len", "max", "min", "clamp", "snap_scale", "sorted", "list", "tuple", "asarray", "array", "arange", "linspace"}
@@ -166,6 +178,9 @@ class AxisTyper:
             if e.attr in ATTR_AXIS:
                 # .x/.y of an axis-pure container (self._xbin ...) still means that axis
                 return ATTR_AXIS[e.attr]
+            fa = self.b.of_attr(e.attr)
+            if fa is not None:
+                return fa
             base = self.tag(e.value, depth + 1)
             return base  # tx.real, xbin.origin ...
         if isinstance(e, ast.UnaryOp):
@@ -426,6 +441,16 @@ def rule_axis(prog: Program, modules: Set[str]) -> List[Instance]:
                             out.append(Instance("R-AXIS", cid, OK, f"{'row' if want == Y else 'column'} slice of np.s_[rows, cols] built from {want} quantities", fi.where(n)))
                         else:
                             out.append(Instance("R-AXIS", cid, BAD, f"`{short(n, 70)}`: the {'row' if want == Y else 'column'} slice is built from {sorted(tags)} quantities (rows are y, columns are x)", fi.where(n)))
+            # ---------------- T6: per-axis container indexed with the other axis' index
+            if isinstance(n, ast.Subscript) and not isinstance(n.slice, (ast.Slice, ast.Tuple)) and const_num(n.slice) is None:
+                tb = ty.tag(n.value) if not isinstance(n.value, ast.Name) or b.of(n.value.id) else None
+                ti = ty.tag(n.slice)
+                if tb and ti and ty.order(n.value) is None:
+                    cid = _cid(fi, "T6:index", n, counter)
+                    if tb == ti:
+                        out.append(Instance("R-AXIS", cid, OK, f"{tb} container `{short(n.value, 30)}` indexed with a {ti} index", fi.where(n)))
+                    else:
+                        out.append(Instance("R-AXIS", cid, BAD, f"`{short(n, 60)}`: {tb} container indexed with the {ti} index", fi.where(n)))
             # ---------------- T2: unpacking
             tg = val = None
             if isinstance(n, ast.Assign) and len(n.targets) == 1:
